@@ -6,6 +6,7 @@ Lemmas (induction on the tick count, base + step obligations):
    L3: 6 S_T = 6 a0 + 6 T r0 + 3 accel T (T+1) + jerk (T-1) T (T+1)
    L4: r_1 = 0 => r_2 = accel + jerk ;  r_1 = r_2 = 0 => r_3 = jerk          (three-level clear rule)
 """
+from fractions import Fraction
 import z3
 
 from pyvc.harness import run, no_raise, oblige_at
@@ -77,7 +78,7 @@ def check_t3(sess, accum_kind):
     ctx = sess.new_ctx()
     ctx.opts['track_float'] = True
     ctx.opts['prune_timeout_ms'] = 3000
-    ctx.opts['mpf_inexact'] = 'real'
+    ctx.opts['mpf_inexact'] = 'bound'       # forward error analysis of the rounded mpmath operations (pyvc/mpmodel.py)
     T, rate, accel, jerk = z3.Ints('time rate accel jerk')
     dps0 = z3.Int('mp_dps0')
     req = domain(T, rate, accel, jerk) + [dps0 >= 1]
@@ -123,6 +124,12 @@ def check_t3(sess, accum_kind):
         S6c = specs.t3_S6(rate, accel, jerk, T, caz)
         s = caz + T * r0 + accel * hh + jerk * h6
         num = v.num if not isinstance(v.num, int) else z3.IntVal(v.num)
+        if v.err is None:
+            ex.oblige(p, 'mpf-error', False, 'rounding-error-of-the-round()-argument-is-not-tracked')
+        else:
+            # the computed value is within err of the integer S_T: round() returns S_T exactly when err < 1/2
+            ex.oblige(p, 'mpf-error', bool(v.err < Fraction(1, 2)), f'accumulated-rounding-error<1/2(bound={float(v.err):.3g})')
+            p.ghost['round_err'] = v.err
         ex.oblige(p, 'lemma', v.den * S6c == 6 * num, 'round-argument-is-S_T:(i)den*6S_T==6*num')
         ex.oblige(p, 'lemma', S6c == 6 * s, 'round-argument-is-S_T:(ii)6-divides-6S_T')
         p.assume(v.den * S6c == 6 * num)
@@ -248,8 +255,9 @@ def build(sess):
         'pyvc symbolic executor and its model of the Python subset',
         'z3 / cvc5 (QF_NIA/NRA)',
         'mpmath at mp.dps=30 (prec 103): exactly representable results are returned exactly (obligation mpf-exact at each such '
-        'operation); the INEXACT operations of move_dist_t3 (mpf(jerk)/6 and what follows) are treated as ideal rational arithmetic: '
-        'the rounding error (<= 12 operations * 2^96 * 2^-103 < 1/2, so round() returns the ideal integer) is argued in DESIGN C02, not mechanised',
+        'operation); the INEXACT operations of move_dist_t3 (mpf(jerk)/6 and what follows) carry a mechanised forward error '
+        'analysis (pyvc/mpmodel.py mode "bound": magnitude bounds inferred by solver queries, one unit roundoff 2^-103 relative '
+        'error per rounded operation, obligations mpf-error and mpf-compare-robust); ASSUMED: each mpmath operation is correctly rounded',
         'int/int true division feeding int(): binary64 quotient truncates like the exact quotient for |a| < 2^53, |b| <= 1024 (stated lemma)',
         'rate_t3: binary64 arithmetic is exact on the narrowed domain (float-exact obligations); firmware domain => narrowed domain by lemma L5',
         'Python int = mathematical integer',
